@@ -671,6 +671,13 @@ struct Digit {
         SizeT64 exp = DigitUtils::RealNumberInfo<double, 8U>::Bias; // double only
         exp += bit;
         exp += shifted;
+
+        if (exp >= SizeT64{0x7FF}) {
+            // Above the largest finite double: infinity.
+            number = (SizeT64{0x7FF} << 52U);
+            return;
+        }
+
         exp <<= 52U;
         number &= 0xFFFFFFFFFFFFFULL;
         number |= exp;
